@@ -1,6 +1,6 @@
 """C06 — emitted C executes exactly the compiled state machine (llsym step vs absm step, every state, symbolic byte/End/data)."""
 import sys
-from engines import chk, l3check
+from engines import chk, l3check, selfval
 
 PID = 'C06'
 ASPECTS = ('c06', 'byte', 'end')
@@ -70,8 +70,13 @@ def main(tier, replay):
                   'configs': [c[0] for c in (l3check.CONFIGS_QUICK if tier == 'quick' else l3check.CONFIGS_THOROUGH)]}
     run.assumptions = ['malloc returns a fresh live object, never NULL', 'hooks are pure observers', 'arithmetic UB of user expressions assumed away (C14 precondition)',
                        'x86-64 layout as computed by clang', 'state index i <-> dfa.states[i] taken from the compiler']
+    ok, bad = selfval.run(6 if tier == 'quick' else 20)
+    run.cov['encoding_self_validation'] = {'concrete_llsym_runs_agreeing_with_gcc_build': ok, 'problems': bad}
+    if bad or ok < 2:
+        run.harness_error('llsym self-validation failed: ' + str(bad[:2]))
     jobs = l3check.jobs_for(tier, ASPECTS)
     consume(run, l3check.run_jobs(jobs), KINDS, PID)
+    run.cov['traces_validated_against_impl'] = ok + run.cov.get('disagreements_checked', 0)
     return run.finish('Per (program, config) and per control state the solver compares every pair of overlapping paths of the emitted C '
                       '(LLVM IR, symbolic byte or End, symbolic data within Inv) and of the abstract machine over the same DFA object: result code, '
                       'stored state, outputs, hook calls with inval and snapshots, *start offset. states/transitions = control states and abstract transitions explored.')
